@@ -119,7 +119,7 @@ def cut_points(case, b, j, reduce_runs):
     if not reduce_runs:
         return list(range(1, len(s)))
     cols, rows = case["term"]
-    t = vterm.VTerm(cols, rows, case.get("ident", "other"), decode_images=False)
+    t = vterm.VTerm(cols, rows, cc.vterm_identity(case.get("ident", "other")), decode_images=False)
     t.r = case["row0"]
     for text in b.out[:b.before[j]]:
         t.feed(text)
